@@ -366,17 +366,32 @@ func runC18(c C18Case, o *run.Obs) error {
 		case "cstore":
 			var wg sync.WaitGroup
 			errs := make([]error, op.N)
+			lerrs := make([]error, op.N)
 			for j := 0; j < op.N; j++ {
 				wg.Add(1)
 				go func(j int) {
 					defer wg.Done()
 					errs[j] = p.Store(ctx, name, payload)
+					if errs[j] == nil {
+						// this writer's own write has succeeded: from now on the name loads, whatever the other writers do
+						b, err := p.Load(ctx, name)
+						if err != nil {
+							lerrs[j] = fmt.Errorf("Load right after this writer's successful Store failed: %v", err)
+						} else if !bytes.Equal(b, payload) {
+							lerrs[j] = fmt.Errorf("Load right after this writer's successful Store returned %d bytes, %d were written", len(b), len(payload))
+						}
+					}
 				}(j)
 			}
 			wg.Wait()
 			for _, err := range errs {
 				if err != nil {
 					return fmt.Errorf("%s %s: one of %d concurrent Store(%q) calls failed: %v", desc, when, op.N, name, err)
+				}
+			}
+			for _, err := range lerrs {
+				if err != nil {
+					return fmt.Errorf("%s %s: %d concurrent Store(%q) calls: %v", desc, when, op.N, name, err)
 				}
 			}
 			model[name] = payload
